@@ -239,6 +239,7 @@ class Interface(ModelElement):
         if pval is None:
             self.unset_property(pname)
             return
+        self._check_service_port_type({pname: pval})
         if_sliver = InterfaceSliver()
         if_sliver.set_property(prop_name=pname, prop_val=pval)
         # write into the graph
@@ -248,12 +249,27 @@ class Interface(ModelElement):
             prop_dict.pop(ABCPropertyGraph.PROP_STITCH_NODE, None)
         self.topo.graph_model.update_node_properties(node_id=self.node_id, props=prop_dict)
 
+    def _check_service_port_type(self, props):
+        """
+        A service port exists for one connection or peering and has exactly one peer: an interface
+        does not become, or cease to be, one by having its type rewritten
+        """
+        new_type = props.get('type', None)
+        if new_type is None:
+            return
+        is_sp = self.type == InterfaceType.ServicePort
+        will_be_sp = str(new_type) == str(InterfaceType.ServicePort)
+        if is_sp != will_be_sp:
+            raise TopologyException(f'Interface {self.name}: service ports are created and removed by '
+                                    f'connect_interface()/peer() and their counterparts, not by changing the type')
+
     def set_properties(self, **kwargs):
         """
         Set multiple properties of the interface
         :param kwargs:
         :return:
         """
+        self._check_service_port_type(kwargs)
         if_sliver = InterfaceSliver()
         if_sliver.set_properties(**kwargs)
         # write into the graph
